@@ -15,7 +15,15 @@ import (
 	"golang.org/x/tools/go/ssa/ssautil"
 )
 
-const repoDir = "/repo"
+// repoDir is the tree under verification. Registered commands always use /repo;
+// VERIF_REPO exists only so that seeded and behaviour-preserving changes can be
+// tried against scratch worktrees without touching /repo (tools/seedtest.sh).
+var repoDir = func() string {
+	if d := os.Getenv("VERIF_REPO"); d != "" {
+		return d
+	}
+	return "/repo"
+}()
 const modPath = "github.com/coredhcp/coredhcp"
 
 // Engine is the shared, read-only part: the SSA program built from /repo's
